@@ -80,7 +80,8 @@ def main():
             m = re.search(r"cp \S+ (\S+)", dc)
             dst = m.group(1) if m else "seeded_demo%s_test.go" % i
             pre = "/tmp/seedwt/%s/" % ID
-            if dst.startswith("/tmp/seedwt5/%s/" % ID): pre = "/tmp/seedwt5/%s/" % ID
+            mm = re.match(r"/tmp/seedwt\d+/%s/" % ID, dst)
+            if mm: pre = mm.group(0)
             if dst.startswith(pre):
                 dst = dst[len(pre):]
             elif dst.startswith("/"):
